@@ -152,3 +152,119 @@ def dump_every_way(d):
         raise AssertionError("dump(fd) wrote %r, convert_to_text() gives %r, dump() gives %r"
                              % (fd.getvalue().decode("utf-8", "replace"), d.convert_to_text(), out))
     return out
+
+
+def large_documents(repro, t):
+    """sizes no small example reaches (hundreds of fields / paragraphs / value lines / list values, indices beyond 256): the same
+    statements as for the small documents, on generated documents whose structure is known by construction"""
+    from debian._deb822_repro.parsing import Deb822ParagraphElement
+    try:
+        # (1) one paragraph of 300 fields, one of them with 150 comment lines and a 200-line value
+        lines = []
+        for i in range(300):
+            if i == 150:
+                lines += ["# c %d\n" % j for j in range(150)]
+                lines += ["Long: first\n"] + [" cont %d\n" % j for j in range(200)]
+            lines.append("F%03d: v%d\n" % (i, i))
+        doc = "".join(lines)
+        d = repro.parse_deb822_file(lines)
+        paras = list(d)
+        t.case(key="large: 300 fields")
+        if len(paras) != 1 or len(list(paras[0].keys())) != 301 or paras[0]["F299"] != "v299" or \
+                paras[0]["Long"] != "first\n" + "".join(" cont %d\n" % j for j in range(200)).rstrip("\n"):
+            t.failed("a paragraph of 301 fields is not read as one paragraph with those fields", paragraphs=len(paras),
+                     fields=[len(list(p.keys())) for p in paras][:5])
+            return
+        p = paras[0]
+        # set a value of 400 lines, add a field, delete one, move fields - then compare with the text built by hand
+        newval = "n0\n" + "\n".join(" n%d" % j for j in range(1, 400))
+        p["F010"] = newval
+        p["Zz-New"] = "tail"
+        del p["F020"]
+        p.order_first("F299")
+        p.order_after("F000", "F298")
+        out = dump_every_way(d)
+        exp = []
+        body = [l for l in lines]
+        def field_block(name):
+            i0 = next(i for i, l in enumerate(body) if l.startswith(name + ":"))
+            i1 = i0 + 1
+            while i1 < len(body) and body[i1][:1] in (" ", "\t"):
+                i1 += 1
+            c0 = i0
+            while c0 > 0 and body[c0 - 1].startswith("#"):
+                c0 -= 1
+            return c0, i1
+        a, b = field_block("F010")
+        body[a:b] = ["F010: " + newval.replace("\n", "\n", 1) + "\n"]
+        body.append("Zz-New: tail\n")
+        a, b = field_block("F020")
+        del body[a:b]
+        a, b = field_block("F299")
+        blk = body[a:b]
+        del body[a:b]
+        body[0:0] = blk
+        a, b = field_block("F000")
+        blk = body[a:b]
+        del body[a:b]
+        a2, b2 = field_block("F298")
+        body[b2:b2] = blk
+        t.case(key="large: edits on 300 fields")
+        if out != "".join(body):
+            first = next((i for i, (x, y) in enumerate(zip(out, "".join(body))) if x != y), min(len(out), len("".join(body))))
+            t.failed("edits on a 301-field paragraph (400-line value, add, delete, two moves) do not give the expected text",
+                     first_difference_at_offset=first, got=out[max(0, first - 60):first + 60], expected="".join(body)[max(0, first - 60):first + 60])
+            return
+        back = next(iter(repro.parse_deb822_file(out.splitlines(True))))
+        if back["F010"] != newval or back["Zz-New"] != "tail" or "F020" in back:
+            t.failed("re-parsing after edits on a large paragraph does not show the edited values", f010_lines=back["F010"].count("\n") + 1)
+            return
+        # (2) a document of 400 paragraphs: inserts at indices around 256, appends
+        plines = []
+        for i in range(400):
+            plines += ["Package: p%d\n" % i, "Depends: x%d\n" % i, "\n"]
+        d = repro.parse_deb822_file(plines)
+        model = ["p%d" % i for i in range(400)]
+        for idx in (0, 10, 255, 256, 257, 258, 300, 399):
+            np_ = Deb822ParagraphElement.new_empty_paragraph()
+            np_["Package"] = "new-at-%d" % idx
+            d.insert(idx, np_)
+            model.insert(idx, "new-at-%d" % idx)
+        out = dump_every_way(d)
+        got = [q["Package"] for q in repro.parse_deb822_file(out.splitlines(True))]
+        t.case(key="large: 400 paragraphs, inserts")
+        if got != model or [q["Package"] for q in d] != model:
+            first = next((i for i, (x, y) in enumerate(zip(got, model)) if x != y), min(len(got), len(model)))
+            t.failed("inserting paragraphs into a 400-paragraph document does not put them at the given indices",
+                     first_difference_at_index=first, got=got[first:first + 3], expected=model[first:first + 3], paragraphs=len(got))
+            return
+        # (3) list fields with many values, and values that run over many lines
+        for kind, interp, sep in (("comma", repro.LIST_COMMA_SEPARATED_INTERPRETATION, ","), ("space", repro.LIST_SPACE_SEPARATED_INTERPRETATION, "")):
+            vals = ["v%d" % i for i in range(600)]
+            if kind == "comma":
+                vals[5] = "alt-a" + "".join("\n | alt-%d" % j for j in range(40))      # one value written over 41 lines
+            text = "Package: x\nList: " + ("%s\n " % sep).join(vals) + "\nOther: 1\n"
+            d = repro.parse_deb822_file(text.splitlines(True))
+            kv = next(iter(d)).get_kvpair_element("List")
+            with kv.interpret_as(interp) as l:
+                seen = list(l)
+                l.append("appended")
+                l.remove("v300")
+                refs = list(l.iter_value_references())
+                refs[10].value = "changed"
+            want = list(vals)
+            want.append("appended")
+            want.remove("v300")
+            want[10] = "changed"
+            out = dump_every_way(d)
+            with next(iter(repro.parse_deb822_file(out.splitlines(True)))).get_kvpair_element("List").interpret_as(interp) as l2:
+                got2 = list(l2)
+            t.case(key=("large list", kind))
+            if seen != vals or got2 != want or not out.endswith("Other: 1\n") or not out.startswith("Package: x\n"):
+                t.failed("a list field of 600 values (one of them 41 lines long) is not read / edited like a short one", kind=kind,
+                         values_read=len(seen), expected=len(vals), after_edit=len(got2), expected_after_edit=len(want),
+                         first_difference=next((i for i, (x, y) in enumerate(zip(seen + got2, vals + want)) if x != y), None))
+                return
+    except Exception as e:
+        import traceback
+        t.failed("large documents raised %r" % (e,), where=traceback.format_exc()[-600:])
